@@ -45,7 +45,9 @@ impl ResDir {
         let d = ResDir::new();
         for f in ["char.def", "unk.def", "rewrite.def"] {
             let src = Path::new("/repo/resources").join(f);
-            std::fs::copy(&src, d.path.join(f)).expect("copy resource");
+            // read + write instead of fs::copy (which needs fchmod, unsupported by Miri)
+            let data = std::fs::read(&src).expect("read resource");
+            std::fs::write(d.path.join(f), data).expect("copy resource");
         }
         d
     }
